@@ -300,7 +300,7 @@ static std::string run_case(const std::vector<std::string>& t)
             ::Patch::Patch patch(fmt_of(t[1]));
             PatchHeaderInfo info;
             bool should_parse_body = parser.parse_patch_header(patch, info, std::atoi(t[2].c_str()));
-            if (patch.format == Format::Unknown) {
+            if (patch.format == Format::Unknown || (info.lines_till_first_hunk == 0 && should_parse_body)) {
                 if (first)
                     throw std::invalid_argument("Only garbage was found in the patch input.");
                 break;
